@@ -299,6 +299,15 @@ def handlerEmit (catchErr serialize : Bool) (strOf : Nat → Except Err Str) (fo
 def sinkLines (catchErr serialize : Bool) (strOf : Nat → Except Err Str) (h : List (Str × Record)) : List Str :=
   h.filterMap (fun p => match handlerEmit catchErr serialize strOf p.1 p.2 with | .wrote s => some s | _ => none)
 
+/-- what a line-by-line reader (`for line in file`, `readline()`; NDJSON consumers) makes of a text without
+CR: the maximal chunks ending in LF, plus a last unterminated chunk if there is one.  `cur` is the current
+chunk, reversed. -/
+def readLinesAux (cur : Str) : Str → List Str
+  | [] => if cur = [] then [] else [cur.reverse]
+  | c :: t => if c = '\n' then (c :: cur).reverse :: readLinesAux [] t else readLinesAux (c :: cur) t
+
+def readLines (s : Str) : List Str := readLinesAux [] s
+
 /-- a long-lived handler fed a history of (formatted text, record) pairs.  `_serialize_record` is a
 static function of its two arguments (`Gen.serializeIsPure`, checked on the AST), so the i-th line
 depends on the i-th pair only – level updates, earlier records, other handlers cannot show. -/
